@@ -1,0 +1,252 @@
+//go:build verif
+
+package panos
+
+// Hooks for the verification harness (property C03 and the PAN-OS share of
+// C07, C08, C10).  Add-only; compiled only with build tag "verif".
+
+import (
+	"encoding/xml"
+	"fmt"
+	"strings"
+
+	"github.com/hknutzen/Netspoc-Approve/go/pkg/deviceconf"
+	"github.com/pkg/diff/myers"
+)
+
+type VerifRule struct {
+	Name string
+	// Everything the planner compares besides source, destination and
+	// service, as canonical XML.
+	Hdr           string
+	Src, Dst, Srv []string
+}
+
+type VerifObj struct{ Name, Val string }
+
+type VerifGrp struct {
+	Name    string
+	Members []string
+}
+
+type VerifVsys struct {
+	Name, DisplayName string
+	Rules             []VerifRule
+	Addresses         []VerifObj
+	Groups            []VerifGrp
+	Services          []VerifObj
+	SGroups           []VerifGrp
+}
+
+type VerifConfig struct {
+	HasDevices bool
+	NEntries   int
+	DevName    string
+	Vsys       []VerifVsys
+}
+
+func verifInner(v any) string {
+	b, err := xml.Marshal(v)
+	if err != nil {
+		panic(err)
+	}
+	s := string(b)
+	i := strings.Index(s, ">")
+	j := strings.LastIndex(s, "<")
+	if i < 0 || j < i+1 {
+		return ""
+	}
+	return s[i+1 : j]
+}
+
+func verifRule(r *panRule) VerifRule {
+	c := *r
+	c.Name = ""
+	c.Source = nil
+	c.Destination = nil
+	c.Service = nil
+	c.Append = nil
+	return VerifRule{
+		Name: r.Name,
+		Hdr:  verifInner(&c),
+		Src:  append([]string{}, r.Source...),
+		Dst:  append([]string{}, r.Destination...),
+		Srv:  append([]string{}, r.Service...),
+	}
+}
+
+func verifAddress(o *panAddress) VerifObj {
+	return VerifObj{o.Name, verifInner(o)}
+}
+
+func verifService(o *panService) VerifObj {
+	return VerifObj{o.Name, verifInner(o)}
+}
+
+func verifVsys(v *panVsys) VerifVsys {
+	r := VerifVsys{Name: v.Name, DisplayName: v.DisplayName}
+	for _, ru := range v.Rules {
+		r.Rules = append(r.Rules, verifRule(ru))
+	}
+	for _, o := range v.Addresses {
+		r.Addresses = append(r.Addresses, verifAddress(o))
+	}
+	for _, o := range v.AddressGroups {
+		r.Groups = append(r.Groups,
+			VerifGrp{o.Name, append([]string{}, o.Members...)})
+	}
+	for _, o := range v.Services {
+		r.Services = append(r.Services, verifService(o))
+	}
+	for _, o := range v.ServiceGroups {
+		r.SGroups = append(r.SGroups,
+			VerifGrp{o.Name, append([]string{}, o.Members...)})
+	}
+	return r
+}
+
+// VerifDump shows the decoded configuration (first device entry only, as
+// the planner sees it).
+func VerifDump(c deviceconf.Config) *VerifConfig {
+	p, _ := c.(*PanConfig)
+	r := &VerifConfig{}
+	if p == nil || p.Devices == nil {
+		return r
+	}
+	r.HasDevices = true
+	r.NEntries = len(p.Devices.Entries)
+	if r.NEntries == 0 {
+		return r
+	}
+	d := p.Devices.Entries[0]
+	r.DevName = d.Name
+	for _, v := range d.Vsys {
+		r.Vsys = append(r.Vsys, verifVsys(v))
+	}
+	return r
+}
+
+// VerifChanges returns the undecoded commands, grouped as they are sent.
+func (s *State) VerifChanges() [][]string {
+	var r [][]string
+	for _, chg := range s.changes {
+		r = append(r, append([]string{}, chg.Cmds...))
+	}
+	return r
+}
+
+// VerifRuleScripts computes, per vsys pair, the edit script the planner will
+// get from myers.Diff for the rule lists.  Sorts member lists like diffConfig
+// does (idempotent).
+func VerifRuleScripts(c1, c2 deviceconf.Config) (map[string][][4]int, error) {
+	p1, _ := c1.(*PanConfig)
+	p2, _ := c2.(*PanConfig)
+	res := make(map[string][][4]int)
+	err := processVsysPairs(p1, p2, func(v1, v2 *panVsys) error {
+		if v1 == nil || v2 == nil {
+			return nil
+		}
+		sortMembers(v1)
+		sortMembers(v2)
+		ab := rulesPairFrom(v1, v2)
+		s := myers.Diff(nil, ab)
+		l := [][4]int{}
+		for _, r := range s.Ranges {
+			l = append(l, [4]int{r.LowA, r.HighA, r.LowB, r.HighB})
+		}
+		res[v1.Name] = l
+		return nil
+	})
+	return res, err
+}
+
+type verifMatrix struct {
+	n, m int
+	eq   []bool
+}
+
+func (p *verifMatrix) LenA() int           { return p.n }
+func (p *verifMatrix) LenB() int           { return p.m }
+func (p *verifMatrix) Equal(i, j int) bool { return p.eq[i*p.m+j] }
+
+// VerifMyers runs the real myers.Diff on an explicit equality matrix.
+func VerifMyers(n, m int, eq []bool) [][4]int {
+	s := myers.Diff(nil, &verifMatrix{n, m, eq})
+	l := [][4]int{}
+	for _, r := range s.Ranges {
+		l = append(l, [4]int{r.LowA, r.HighA, r.LowB, r.HighB})
+	}
+	return l
+}
+
+// Parsers for the XML carried in the element parameter of a command,
+// using the same struct definitions as the planner.
+
+func VerifParseRule(name, inner string) (VerifRule, error) {
+	ru := new(panRule)
+	text := `<entry name="x">` + inner + `</entry>`
+	if err := xml.Unmarshal([]byte(text), ru); err != nil {
+		return VerifRule{}, err
+	}
+	ru.Name = name
+	return verifRule(ru), nil
+}
+
+func VerifParseAddress(name, text string, whole bool) (VerifObj, error) {
+	o := new(panAddress)
+	if !whole {
+		text = `<entry name="` + verifAttrEsc(name) + `">` + text + `</entry>`
+	}
+	if err := xml.Unmarshal([]byte(text), o); err != nil {
+		return VerifObj{}, err
+	}
+	if o.XMLName.Local != "entry" {
+		return VerifObj{}, fmt.Errorf("root element %q", o.XMLName.Local)
+	}
+	return verifAddress(o), nil
+}
+
+func VerifParseService(name, text string, whole bool) (VerifObj, error) {
+	o := new(panService)
+	if !whole {
+		text = `<entry name="` + verifAttrEsc(name) + `">` + text + `</entry>`
+	}
+	if err := xml.Unmarshal([]byte(text), o); err != nil {
+		return VerifObj{}, err
+	}
+	if o.XMLName.Local != "entry" {
+		return VerifObj{}, fmt.Errorf("root element %q", o.XMLName.Local)
+	}
+	return verifService(o), nil
+}
+
+func verifAttrEsc(s string) string {
+	var b strings.Builder
+	xml.EscapeText(&b, []byte(s))
+	return b.String()
+}
+
+// VerifParseMembers parses <member>..</member>... ; if root is not empty the
+// text must be wrapped in exactly that element.
+func VerifParseMembers(text, root string) ([]string, error) {
+	type wrapped struct {
+		XMLName xml.Name
+		Member  []string    `xml:"member"`
+		Other   []AnyHolder `xml:",any"`
+	}
+	w := new(wrapped)
+	if root == "" {
+		text = "<x>" + text + "</x>"
+		root = "x"
+	}
+	if err := xml.Unmarshal([]byte(text), w); err != nil {
+		return nil, err
+	}
+	if w.XMLName.Local != root {
+		return nil, fmt.Errorf("root element %q, expected %q", w.XMLName.Local, root)
+	}
+	if len(w.Other) != 0 {
+		return nil, fmt.Errorf("unexpected element %q", w.Other[0].XMLName.Local)
+	}
+	return w.Member, nil
+}
